@@ -905,7 +905,10 @@ def judge(o):
         body = o.case.line.split()[1:]
         txt_ = from_cps(' '.join(body))
         if (not all(in_text_alphabet(int(w)) for w in body) or _NONASCII_IN_TAG.search(txt_)
-                or re.search(r'<(script|style)\b', txt_, re.I)):     # raw-text elements: template territory, never document text
+                or re.search(r'<(script|style)\b', txt_, re.I)      # raw-text elements: template territory, never document text
+                or '<!' in txt_ or '<?' in txt_):                     # comments, declarations, processing instructions: their data is
+                                                                      # not displayed text (a numeric reference inside a comment is
+                                                                      # not decoded by any reader), so the text oracle does not apply
             o.prop_ok = True
             o.note = 'outside the text alphabet (compared with the model only)'
             return
